@@ -641,6 +641,10 @@ type c12Proto interface {
 	checkpoint(i int)
 	checkpointSync(i int)
 	release(i int)
+	// bind4 drives the real DHCPv4 ACK handler (bind or renew); v4of = the session's current IPv4 address;
+	// ok=false: this protocol has no such path
+	bind4(i int, a net.IP, lease int) bool
+	v4of(i int) net.IP
 	dumpLive(kpd int) string
 	dumpStored(val []byte, kpd int) string
 }
@@ -1368,6 +1372,33 @@ func (e *c12Env) runCase(f []string) string {
 				fail, _ = strconv.Atoi(a[2])
 			}
 			out = append(out, e.crash(a[1] == "p", fail, "", nil))
+		case "bind4":
+			// bind4:<i>:<lease> — the provider's DHCPv4 ACK for session i reaches the real handleAck: bind with an
+			// address allocated now (session without IPv4) or renew of the address it has
+			i, _ := strconv.Atoi(a[1])
+			lease, _ := strconv.Atoi(a[2])
+			if !e.p.live(i) || !e.p.bind4(-1, nil, 0) {
+				out = append(out, "skip")
+				continue
+			}
+			addr := e.p.v4of(i)
+			what := "r"
+			if addr == nil {
+				got, _, err := allocator.GetGlobalRegistry().AllocateFromProfile("p4", "", "", c12SessID(i))
+				if err != nil {
+					out = append(out, "bind4 x")
+					continue
+				}
+				addr = got
+				what = c12V4Idx(got)
+			}
+			t := e.tick
+			e.tick++
+			st := fmt.Sprintf("t%d", t)
+			e.p.stamp(i, st)
+			r := e.runOp("", func() { e.p.bind4(i, addr, lease) })
+			e.expect(t, c12SessID(i), `"`+st+`"`)
+			out = append(out, fmt.Sprintf("bind4%s %s %d %s", r, what, t, e.log.take()))
 		case "flip":
 			// the allocation direction flips (pkg/ha: this node is not the election winner): every pool rebuilds
 			// its free list; what is leased or reserved must stay off it
